@@ -285,7 +285,14 @@ class Conn:
         self.gate_open = not connect_gate
         self.connect_started = False
         loop = world.loop
-        if flavour == 'tcp':
+        from mc import links
+        self.stream = links.is_stream(flavour)
+        if flavour not in ('tcp', 'msg'):
+            links.build(self, world, flavour)
+            for tr in (self.ct, self.st):
+                if tr is not None:
+                    self._cap_queue(tr)
+        elif flavour == 'tcp':
             from rsocket.transports.tcp import TransportTCP
             rc, rs = asyncio.StreamReader(limit=1 << 26, loop=loop), asyncio.StreamReader(limit=1 << 26, loop=loop)
             self.c2s.sink, self.s2c.sink = rs, rc
@@ -446,7 +453,7 @@ class World:
             for d in c.dirs():
                 if d.dead or not d.sink_alive():
                     continue
-                if c.flavour == 'tcp':
+                if c.stream:
                     n = d.next_frame_len()
                     if batch and d.pending:
                         dl.append((('dlv', d.name, 'A'), lambda d=d: d.deliver_bytes(len(d.pending))))
@@ -483,7 +490,7 @@ class World:
         alt = []
         if 'all' in self.alts or 'chunk' in self.alts:
             for c in self.conns:
-                if c.flavour != 'tcp':
+                if not c.stream:
                     continue
                 for d in c.dirs():
                     if d.dead or not d.sink_alive() or not d.pending:
@@ -511,7 +518,7 @@ class World:
                 for d in c.dirs():
                     if d.dead or d.eof_done or not d.sink_alive():
                         continue
-                    if c.flavour == 'tcp':
+                    if c.stream:
                         total = len(d.pending)
                         if self.cut_points == 'all':
                             ks = range(0, total + 1)
@@ -560,7 +567,7 @@ class World:
     def _cut(self, d, kind, k=0):
         """Connection loss on direction d after exactly k more bytes (tcp) / messages (msg) were delivered."""
         self.faults_used += 1
-        if d.conn.flavour == 'tcp':
+        if d.conn.stream:
             if k:
                 d.deliver_bytes(k)
         else:
@@ -689,7 +696,12 @@ def start_server(w, conn, beh=None, handler_factory=None, **kw):
     from rsocket.rsocket_server import RSocketServer
     from mc.app import RecHandler
     hf = handler_factory or (lambda: RecHandler(w, conn.sname, beh))
-    server = RSocketServer(conn.st, handler_factory=hf, **kw)
+    if conn.flavour == 'chan':
+        from mc import links
+        server = links.start_channels_server(w, conn, hf, **kw)
+        conn._cap_queue(conn.st)
+    else:
+        server = RSocketServer(conn.st, handler_factory=hf, **kw)
     conn.server = server
     return server
 
@@ -724,7 +736,7 @@ def start_pair(w, flavour='tcp', c_beh=None, s_beh=None, client_kw=None, server_
 def inject(w, d, raw):
     """A scripted peer writes one frame into direction d (through the link, so the endpoint under test still runs its
     real transport and parser)."""
-    if d.conn.flavour == 'tcp':
+    if d.conn.stream:
         d.written(refwire.prefixed(raw))
     else:
         d.message_written(raw)
@@ -732,7 +744,7 @@ def inject(w, d, raw):
 
 def inject_bytes(w, d, data):
     """Raw bytes (tcp) / raw message (msg) from a hostile scripted peer; not logged as a frame."""
-    if d.conn.flavour == 'tcp':
+    if d.conn.stream:
         d.pending.extend(data)
     else:
         d.msgs.append(bytes(data))
